@@ -67,6 +67,17 @@ CHECKS["C21"] = (
     "DESIGN.md §6 C21",
 )
 
+CHECKS["C02"] = (
+    "Lean 4 theorems over a transcription of MatchResult.apply / root_parse: for every well-formed match tree (any nesting, any "
+    "inserts) materialisation never raises and the leaves are exactly the tokens of its slice in order, without repetition; for a "
+    "root match starting at the first code token the file tree's leaves are exactly all tokens. Well-formedness of what the dialect "
+    "grammars return (GrammarWF, MatchStartsAtIdx) is a contract evaluated by Lean on every real root match; the leaves=tokens spec "
+    "is evaluated on every real tree. Partial: the combinator engine producing match results is not modelled.",
+    "Lean 4 proof (induction on nesting + trigger-loop invariant) + differential correspondence + contract validation",
+    "Lean kernel; standard axioms; GrammarWF / MatchStartsAtIdx sampled, not proved; hand model tied by sampled correspondence",
+    "DESIGN.md §6 C02",
+)
+
 NOT_YET = {}
 
 
